@@ -261,6 +261,44 @@ def forms_program():
     )
     F.append(
         fn(
+            # an assignment expression inside a lambda binds the lambda's own variable
+            "lamwalrus",
+            ["p"],
+            [
+                ["bind", "y", V],
+                ["bind", "r", ["lamw", "y", V]],
+                use("y", "r"),
+                ["ret", var("y")],
+            ],
+        )
+    )
+    F.append(
+        fn(
+            # an assignment expression in the index of a subscript target: o[(k := ...)] = ...
+            "subwalrus",
+            ["p"],
+            [
+                ["bind", "o", ["obj"]],
+                ["bind", ["sub", "o", ["walrus", "k", V]], ["add", var("p"), V]],
+                use("k"),
+                ["ret", var("k")],
+            ],
+        )
+    )
+    F.append(
+        fn(
+            # a local annotation Python never evaluates: the name exists for type checkers only
+            "annundef",
+            ["p"],
+            [
+                ["ann", "y", "OnlyForTypeCheckers", ["add", var("p"), V]],
+                use("y"),
+                ["ret", var("y")],
+            ],
+        )
+    )
+    F.append(
+        fn(
             "augwalrus",
             ["p"],
             [
